@@ -260,6 +260,11 @@ def r_who_write_semaphore(ctx: Ctx, rule="R01.4"):
     for e in effs:
         rep.ob(rule, "semaphore object/counter written only by the constructor and the pool_size setter",
                ctx.hosts_of(e.node) <= {"__init__", "pool_size.setter"} and ctx.in_pool(e.node.func), node=e.node, detail=f"{e.kind} {e.path} in {e.node.func.short}")
+        if e.path == SLOT and e.kind == "assign":
+            # requests parked in `await self._enough_room.acquire()` wait on *this object*; a later release() on a replacement never wakes them
+            rep.ob(rule, "the semaphore object the waiters are parked on is bound once, by the constructor (never replaced)",
+                   ctx.hosts_of(e.node) <= {"__init__"}, node=e.node,
+                   detail=f"{e.node.func.short} rebinds {e.path}: tasks already waiting for room stay queued on the old object and are never admitted")
     # acquire sites: only _start_task takes pool slots
     acq = ctx.effects(fields=["_enough_room"], kinds=["acquire", "maybe-acquire"])
     rep.floor(rule, "acquire sites of the pool semaphore", len(acq), 1)
@@ -506,6 +511,13 @@ def _removal_is_snapshot_keyed(ctx: Ctx, f: FuncInfo, r: Node, eff, susp_before:
             return True
         return False
     if locals_:
+        # a "snapshot" must be a copy: a live view (ChainMap(a, b), a.keys(), an alias) follows the registry while flush waits
+        P_ = ctx.eff.paths(frame)
+        views = [nm for nm in locals_ if not P_.is_copy(ast.Name(id=nm, ctx=ast.Load())) and
+                 any(field_of(x) in ("_tasks_ended", "_tasks_cancelled", "_tasks_running") for x in _local_sources(ctx, frame, fenv, nm))]
+        if views:
+            guard = _enclosing_if_texts(r.func, r)
+            return True if any(".done()" in t for t in guard) else False
         verdicts = [_snapshot_gathered(ctx, f, r, nm, eff, frame, fenv) for nm in locals_]
         if all(v is True for v in verdicts):
             return True
